@@ -326,7 +326,7 @@ func genConfig(r *sim.Rand) caseCfg {
 		default:
 			rc.Allowed = sim.Pick(r, []int64{10, 20, 25, 50, 64, 75, 99, 100})
 		}
-		rc.WindowS = sim.Pick(r, []int{1, 2, 3, 4, 5})
+		rc.WindowS = sim.Pick(r, []int{1, 2, 3, 4, 5, 7, 11, 13}) // 7, 11, 13 s do not divide the span between year 1 and 1970
 		if r.Chance(3, 5) {
 			rc.Status = sim.Pick(r, []int{429, 503, 418, 400})
 		}
@@ -853,8 +853,11 @@ func concurrentRounds(args sim.Args, v *sim.Verdict, rp replay, s *sut, history 
 	if len(history) > 0 {
 		last = history[len(history)-1].OffsetNs
 	}
-	// 400 ms into a window that is fresh for every W in 1..5 s under both conventions
-	off := (last/(60*sec)+1)*60*sec + 400*int64(time.Millisecond)
+	// 400 ms into a window that is fresh for every generated W (1..5, 7, 11, 13 s; lcm 60060 s) under both
+	// conventions: the absolute instant is a multiple of 60060 s since the epoch and at least 14 s after the history
+	const lcm = 60060 * sec
+	abs := ((base.UnixNano()+last+14*sec)/lcm + 1) * lcm
+	off := abs - base.UnixNano() + 400*int64(time.Millisecond)
 	s.clk.Set(time.Unix(0, base.UnixNano()+off))
 	var tick atomic.Int64
 	var ops []porcupine.Operation
